@@ -177,6 +177,42 @@ func (l *ltWorld) readTree(p string) (ents []string, feats []string, viol []stri
 	return
 }
 
+// readTreeNoWait is readTree for a scenario thread (no quiescence wait; the reply is written synchronously).
+func (l *ltWorld) readTreeNoWait(p string) (ents []string, feats []string, viol []string) {
+	pe := l.w.Peers[p]
+	before := pe.W.Len()
+	d := pe.Datagram(pe.NM(), world.LocalNM(), model.CmdClassifierTypeRead, false, nil, model.CmdType{NodeManagementDetailedDiscoveryData: &model.NodeManagementDetailedDiscoveryDataType{}})
+	pe.Deliver(d)
+	n := 0
+	for _, dg := range pe.W.Datagrams(before) {
+		o := world.Canon(p, dg)
+		if o.Class != "reply" || o.Cmd.NodeManagementDetailedDiscoveryData == nil {
+			continue
+		}
+		n++
+		for _, ei := range o.Cmd.NodeManagementDetailedDiscoveryData.EntityInformation {
+			if ei.Description == nil || ei.Description.EntityAddress == nil || ei.Description.EntityType == nil {
+				viol = append(viol, "malformed entity information in the discovery reply")
+				continue
+			}
+			if a := fmt.Sprint(ei.Description.EntityAddress.Entity); a != "[0]" {
+				ents = append(ents, a+" "+string(*ei.Description.EntityType))
+			}
+		}
+		for _, fi := range o.Cmd.NodeManagementDetailedDiscoveryData.FeatureInformation {
+			if s := featInfoStr(fi); !strings.HasPrefix(s, "[0]/") {
+				feats = append(feats, s)
+			}
+		}
+	}
+	if n != 1 {
+		viol = append(viol, fmt.Sprintf("a discovery read was answered with %d replies", n))
+	}
+	sort.Strings(ents)
+	sort.Strings(feats)
+	return
+}
+
 func (l *ltWorld) apply(op string, judge bool) (viol []string, digest string, effect bool) {
 	f := strings.Split(op, ":")
 	e := f[1]
@@ -437,7 +473,49 @@ func c07Scenarios() []*engine.SScenario {
 			return rt.Outcome{Res: res, Violations: append(viol, panicsAndDeadlocks(res)...), Digest: dig}
 		}}
 	}
+	// a discovery read overlapping an entity removal / addition must announce the tree before or after it
+	readVs := func(name string, change func(l *ltWorld)) *engine.SScenario {
+		return &engine.SScenario{Name: name, Run: func(cfg rt.Config) rt.Outcome {
+			var viol []string
+			var dig string
+			res := rt.Execute(cfg, func() {
+				l := newLTWorld()
+				rt.WaitIdle()
+				for _, op := range []string{"feat:e1:lc:s", "feat:e11:ms:s", "feat:e2:lc:c", "addent:e1", "addent:e11"} {
+					l.apply(op, false)
+				}
+				if !strings.Contains(name, "AddEntity") {
+					l.apply("addent:e2", false)
+				}
+				render := func() string {
+					ents, feats, _ := l.readTree("A")
+					return strings.Join(ents, ";") + " | " + strings.Join(feats, ";")
+				}
+				before := render()
+				var got string
+				var rv []string
+				rt.BeginExplore()
+				rt.Go(func() {
+					ents, feats, v := l.readTreeNoWait("B")
+					got, rv = strings.Join(ents, ";")+" | "+strings.Join(feats, ";"), v
+				})
+				rt.Go(func() { change(l) })
+				rt.WaitIdle()
+				rt.JoinFinished()
+				after := render()
+				viol = append(viol, rv...)
+				if got != before && got != after {
+					viol = append(viol, fmt.Sprintf("a discovery read overlapping an entity change announces a tree that existed neither before nor after it | got=%s\n before=%s\n after=%s", got, before, after))
+				}
+				dig = fmt.Sprint(got == before, got == after)
+			})
+			return rt.Outcome{Res: res, Violations: append(viol, panicsAndDeadlocks(res)...), Digest: dig}
+		}}
+	}
 	return []*engine.SScenario{
+		readVs("discovery read | RemoveEntity of a middle entity", func(l *ltWorld) { l.w.L.RemoveEntity(l.ents["e11"]) }),
+		readVs("discovery read | RemoveEntity of the first entity", func(l *ltWorld) { l.w.L.RemoveEntity(l.ents["e1"]) }),
+		readVs("discovery read | AddEntity", func(l *ltWorld) { l.w.L.AddEntity(l.ents["e2"]) }),
 		mk("two callers, same type and role", [][2]string{{"lc", "s"}, {"lc", "s"}}),
 		mk("three callers, same type and role", [][2]string{{"lc", "s"}, {"lc", "s"}, {"lc", "s"}}),
 		mk("three callers, two types", [][2]string{{"lc", "s"}, {"ms", "s"}, {"lc", "s"}}),
